@@ -145,6 +145,7 @@ def run(ctx, rep, tier):
         calc_step_length(rep, F, tag)
         steplen.cone_step_lengths(rep, F, E, tag, 'C07.R2c')
         add_step(rep, F, tag)
+        steplen.interior_shift(rep, F, tag, 'C07.R5')
     from . import units_rules
     R = rep.rule('C07.R4', 'add_step moves x, s, z, tau, kappa with the same alpha')
     R.guard(lambda: units_rules.add_step_units(R, ctx, 'default', ''))
